@@ -127,6 +127,8 @@ def handle(mod: Any, pid: str, case: Any, tier: str, stats: Stats, stage: str) -
         stats.nontrivial.update(out.nontrivial)
         if len(stats.nontrivial) > before and len(stats.samples) < 3 and stage != "findings":
             stats.samples.append(mod.sample(case, out))
+    for fid in getattr(out, "known", []):
+        stats.known_hits[fid] += 1
     if out.status == "fail":
         cj = case.to_json()
         fid = findings.match(pid, cj, out.failure)
@@ -247,7 +249,7 @@ def run_check(pid: str, tier: str, seed: int) -> int:
         out = mod.evaluate(case, tier)
         total.evaluations += 1
         total.stage_counts["findings"] += 1
-        if out.status == "fail":
+        if out.status == "fail" or f["id"] in getattr(out, "known", []):
             lines.append(findings.line(f, pid))
             total.known_hits[f["id"]] += 1
         else:
